@@ -2,6 +2,18 @@
 DEFERRED = "rules for this property are not armed yet (build order: DESIGN.md Appendix D); not claimed until a self-tested rule exists"
 
 CLAIMS = {
+    "C19": {
+        "level": "other",
+        "text": "Error-discipline rules on every Result-producing call site in non-test code (def-use to `?`, tail return, adaptor chains or an explicit match whose Err arm cannot reach an Ok return), the reader's Ok(None) only under read==0 && empty buffer with the sibling EOF-inside-packet path returning Err, Ok exits of the command loop only from the reader's None arm or Quit, every reader result in the handshake turned into an error on None, identity conversion of shim errors, no shim callback reachable after an error-building block, and an inventory of unwrap/expect on connection-touching io results (two documented Drop panics are known findings).",
+        "note": "Trusted: dependencies do not swallow errors; panics inside the shim are the shim's. Fault injection at run time is not performed: the rules are necessary conditions on all paths.",
+        "technique": "def-use result-discipline analysis, path rules on enumerated CFG paths, reachability from error blocks",
+    },
+    "C09": {
+        "level": "other",
+        "text": "Writer-side wire-layout analysis: emission sequences of the column-definition, resultset-header and PREPARE_OK writers on every Ok path vs the protocol layouts — slot kinds/widths, constants, which Column field feeds which slot, 0x0c fixed-field length vs bytes actually emitted, one packet per definition, count = lenenc(iter.len()) of the same iterator through the library lenenc writer without narrowing, PREPARE_OK field order and single u16 casts, EOF policy. Independent of name content/length and of counts (up to the u16 bound).",
+        "note": "Trusted: mysql_common lenenc writers; byteorder. Counts > 65535 out of the property's range.",
+        "technique": "emission-sequence (wire layout) extraction over enumerated Ok-paths with origin terms per slot",
+    },
     "C02": {
         "level": "other",
         "text": "Command-byte table extracted from the parser's MIR vs the protocol table (9 pairs, bijective); affine cursor offsets of Execute/SendLongData/Close fields vs the request layouts; per enumerated path through one loop iteration: which shim callbacks are reached and how often (table), none in inner loops; the text handed to the shim is the Ok payload of a checked from_utf8 over the command's whole payload (USE: payload[len(matched prefix)..] then trims only), ids are the variant's stmt; invalid UTF-8 exits with an error before any callback; slice starts agree with the prefix matched on that path.",
